@@ -435,6 +435,54 @@ def r8_7(ctx):
     ctx.check(n >= 1, "decoding-rules", "-", "%d rule type(s) decode escapes in make()" % n, "no rule type decoding escapes in make() found")
 
 
+def r8_8(ctx):
+    """ExpectationMaker::parse hands the line to extract as it was given: trailing blanks are content (`foo  ` is an equal expectation for `foo  `,
+    `foo (glob) ` has no *final* modifier group and is an equal expectation for the whole line)"""
+    from ..facts import TRANSPARENT
+    prog = ctx.prog
+    f = prog.fn("ExpectationMaker::parse")
+    o = Origins(f)
+    sites = [(bb, t) for bb, t in f.calls() if (callee_name(t) or "").endswith("ExpectationMaker::extract")]
+    if len(sites) != 1:
+        raise AnchorError("ExpectationMaker::parse: expected one call of extract, found %d" % len(sites))
+    bb, t = sites[0]
+    tree = o.operand(t["args"][1])
+    names = [method_name(c) for c in tree.call_names() if method_name(c) not in TRANSPARENT]
+    ctx.check(not names and any(n.kind == "arg" and n.a == 2 for n in tree.walk()), "parse-verbatim", f.loc(bb), "extract receives the expectation line unchanged",
+              "extract receives the line after %s: an expectation that ends in white space loses it (`foo  ` no longer matches the output `foo  `), and a modifier group "
+              "followed by a blank - not the final group - is taken for the modifier" % names)
+
+
+def r8_9(ctx):
+    """writer / reader agreement on what separates the expression from the trailing group: the reader's pattern says `\\s` (any white space) before
+    `(`; the writer's test for `ends like a modifier` must use the same class (char::is_whitespace), not a literal blank - otherwise
+    `foo<NBSP>(glob) (equal)` is written as `foo<NBSP>(glob)` and read back as a glob"""
+    import json
+    prog = ctx.prog
+    rx = prog.fn("RuleRegistry::to_expectation_regex")
+    try:
+        ps = pieces(Origins(rx).local(0))
+        text = "".join(x if isinstance(x, str) else "{}" for x in ps)
+    except FmtError:
+        text = None
+    if text is None:
+        text = " ".join(c.as_str() or "" for b in [rx] + prog.promoted_of(rx) for c, _ in __import__("analysis.rules.c01", fromlist=["_all_consts"])._all_consts(b))
+    m = re.search(r"(\\s|\[ \]|\x20| )\s*\\\(", text)
+    reader_class = m.group(1) if m else None
+    w = prog.fn("ends_like_modifier")
+    blob = json.dumps([blk["term"] for blk in w.blocks] + [blk["stmts"] for blk in w.blocks])
+    uses_ws = "is_whitespace" in blob
+    lits = [c.as_str() for b in [w] + prog.promoted_of(w) for c, _ in __import__("analysis.rules.c01", fromlist=["_all_consts"])._all_consts(b) if c.as_str()]
+    blank_lit = [x for x in lits if x.endswith("(") and x[:-1].strip() == "" and x != "("]
+    if reader_class == "\\s":
+        ctx.check(uses_ws and not blank_lit, "separator-class", w.where(), "reader `\\s(`, writer char::is_whitespace before `(`: the same separator class",
+                  "the reader accepts any white space before the trailing group (`\\s`), the writer's ends_like_modifier looks for %s only: an equal expectation whose "
+                  "text ends in <NBSP|TAB>(<kind>) is written without ` (equal)` and read back as that kind" % (blank_lit or "a literal blank"))
+    else:
+        ctx.check(reader_class is not None and (bool(blank_lit) or uses_ws), "separator-class", w.where(), "reader separator %r and writer test agree" % reader_class,
+                  "cannot establish the separator class of reader (%r) and writer" % reader_class)
+
+
 def run(ctx):
     ctx.run_rule("R8.1", "extract, by cases (capture count x kind capture empty): an empty kind capture always means `equal` on every path (contradiction rule) [E-TABLE by case analysis]", r8_1, floor=10)
     ctx.run_rule("R8.2", "extract indexes captures[k] only with k < capture count on every case [E-TABLE]", r8_2, floor=5)
@@ -443,3 +491,5 @@ def run(ctx):
     ctx.run_rule("R8.6", "canonical rendering: ` (escaped)` decision (has_unprintable) and rendering (escaped_printable) agree on the character class [E-TABLE sibling agreement]", r8_6, floor=5)
     ctx.run_rule("R8.7", "a rule that decodes escapes in make() unmakes to the decoded bytes its matches() compares with (the writer re-escapes them) [E-FLOW sibling agreement]", r8_7, floor=2)
     ctx.run_rule("R8.5", "every kind() literal is the first registered name of its maker (canonical rendering re-parses to the same rule) [E-TABLE]", r8_5, floor=10)
+    ctx.run_rule("R8.8", "ExpectationMaker::parse passes the line to extract unchanged (no trimming: trailing white space is content and decides what the final group is) [E-FLOW]", r8_8, floor=1)
+    ctx.run_rule("R8.9", "writer/reader agree on the separator before the trailing group: reader `\\s(`, writer char::is_whitespace (F35) [E-TABLE]", r8_9, floor=1)
